@@ -51,12 +51,14 @@ def _traffic(rng):
 
 def gen(rng, tier, index):
     nops = rng.randint(2, 6 if tier == "quick" else 7)
-    maxlen = 64 if tier == "quick" else rng.choice([64, 64, 256, 1024])
+    maxlen = rng.choice([64] * 11 + [1024]) if tier == "quick" else rng.choice([64, 64, 256, 1024])
     fault_free = rng.random() < 0.15
     gap_free = rng.random() < 0.3
     ops = []
     for i in range(nops):
-        if i == 0:
+        if i == 0 and maxlen == 1024 and tier == "quick":
+            n = rng.choice([1024, 1024, 1023, 1022, 1021, 1020])      # the largest payloads: boundary of the length counter
+        elif i == 0:
             n = index % min(maxlen + 1, 70)
         else:
             n = rng.choice([0, rng.randint(1, 9), rng.randint(1, 9), rng.randint(1, 20), rng.randint(1, maxlen)])
